@@ -287,9 +287,115 @@ func (x *Exec) builderCall(st *State, c *ssa.Call, method string, args []SV) SV 
 	return SV{}
 }
 
+// invoke: calls of interface methods implemented by the user (io.Reader, io.Writer,
+// io.StringWriter, ReferenceMatcher).  Callback contracts (DESIGN 2.3): the implementation does
+// not write library-owned memory, except that Read may write the buffer it is handed.
 func (x *Exec) invoke(st *State, c *ssa.Call, recv SV, args []SV) SV {
-	x.fail("interface method call %s", c.Common().Method.FullName())
+	name := c.Common().Method.FullName()
+	it := types.Typ[types.Int]
+	errT := types.Universe.Lookup("error").Type()
+	x.safe(st, "nil", Ne(recv.T, IntC(0)), "method call on a nil interface value", c.Pos())
+	site := func(results ...SV) {
+		if x.fc == nil || len(st.frames) != 1 {
+			return
+		}
+		x.callGhostUpdatesNamed(st, name, recv, args, results)
+	}
+	if x.fc != nil && len(st.frames) == 1 {
+		if cls := x.fc.CallSites[name]; len(cls) > 0 {
+			env := x.contractEnv(st, nil, st.entry)
+			x.bindLocals(env, st.top(), nil)
+			env.vars["$recv"] = recv
+			for i, a := range args {
+				env.vars[fmt.Sprintf("$%d", i)] = a
+			}
+			n := x.invokeOrdinal(c, name)
+			for _, cl := range cls {
+				x.assert(st, fmt.Sprintf("site:call:%s#%d:%s", name, n, cl.Label), env.evalBool(cl.Expr), cl.Text, c.Pos())
+			}
+		}
+	}
+	switch name {
+	case "(io.Reader).Read":
+		p := args[0]
+		n := x.freshOf(st, it, "Read.n")
+		st.assume(And(Le(IntC(0), n.T), Le(n.T, p.Len)))
+		err := x.freshOf(st, errT, "Read.err")
+		// the reader may write anywhere in p[0:len(p)) and nowhere else
+		x.registerKey("E:byte", SArr2)
+		h := x.heapGet(st.heap, "E:byte", SArr2)
+		old := Select(h, p.Id)
+		na := Var(x.freshName("readarr"), SArrI)
+		j := Var(x.freshName("j!rd"), SInt)
+		st.assume(Forall([]*Term{j}, Implies(Or(Lt(j, p.Off), Ge(j, Add(p.Off, p.Len))), Eq(Select(na, j), Select(old, j)))))
+		j2 := Var(x.freshName("j!rd"), SInt)
+		st.assume(Forall([]*Term{j2}, And(Le(IntC(0), Select(na, j2)), Le(Select(na, j2), IntC(255)))))
+		st.heap["E:byte"] = Store(h, p.Id, na)
+		site(n, err)
+		return SV{K: KTuple, Ty: c.Type(), Fields: []SV{n, err}}
+	case "(io.Writer).Write", "(io.StringWriter).WriteString":
+		p := args[0]
+		n := x.freshOf(st, it, "Write.n")
+		st.assume(And(Le(IntC(0), n.T), Le(n.T, p.Len)))
+		err := x.freshOf(st, errT, "Write.err")
+		site(n, err)
+		return SV{K: KTuple, Ty: c.Type(), Fields: []SV{n, err}}
+	case "(zombiezen.com/go/commonmark.ReferenceMatcher).MatchReference":
+		res := x.pureCallResult(st.heap, recv.T, "MatchReference", c.Type(), args)
+		site(res)
+		return res
+	case "(error).Error":
+		return x.freshString(st, c.Type(), "Error")
+	}
+	x.fail("interface method call %s", name)
 	return SV{}
+}
+
+func (x *Exec) invokeOrdinal(c *ssa.Call, name string) int {
+	n := 0
+	for _, b := range c.Parent().Blocks {
+		for _, in := range b.Instrs {
+			if cc, ok := in.(*ssa.Call); ok {
+				if cc == c {
+					return n
+				}
+				if cc.Common().IsInvoke() && cc.Common().Method.FullName() == name {
+					n++
+				}
+			}
+		}
+	}
+	return n
+}
+
+func (x *Exec) callGhostUpdatesNamed(st *State, key string, recv SV, args []SV, results []SV) {
+	if len(x.fc.CallGhost[key]) == 0 {
+		return
+	}
+	env := x.contractEnv(st, nil, st.entry)
+	x.bindLocals(env, st.top(), nil)
+	env.vars["$recv"] = recv
+	for i, a := range args {
+		env.vars[fmt.Sprintf("$%d", i)] = a
+	}
+	for i, r := range results {
+		env.vars[fmt.Sprintf("$result%d", i)] = r
+	}
+	if len(results) == 1 {
+		env.vars["$result"] = results[0]
+	}
+	for _, g := range x.fc.CallGhost[key] {
+		old, ok := st.ghost[g.Name]
+		if !ok {
+			x.fail("ghost update of undeclared ghost %s", g.Name)
+		}
+		nv := env.eval(g.Expr)
+		if nv.K != old.K {
+			x.fail("ghost update of %s changes its kind", g.Name)
+		}
+		st.ghost[g.Name] = nv
+		env.vars[g.Name] = nv
+	}
 }
 
 func sigString(t types.Type) string {
